@@ -16,9 +16,18 @@ def main():
         except Exception as e:
             print(prop, "cannot import:", e); continue
         rows = []
-        for name, relfile, old, new in getattr(mod, "MUTANTS", []):
+        from concurrent.futures import ThreadPoolExecutor
+        par = int(os.environ.get("SWEEP_PAR", "1"))
+        muts = list(getattr(mod, "MUTANTS", []))
+
+        def one(m):
             t = time.time()
-            rc, out = run_mutant(prop, relfile, old, new)
+            rc, out = run_mutant(prop, m[1], m[2], m[3])
+            return m, rc, out, time.time() - t
+        with ThreadPoolExecutor(max_workers=par) as tp:
+            results = list(tp.map(one, muts))
+        for (name, relfile, old, new), rc, out, dt in results:
+            t = time.time() - dt
             viol = [l for l in out.splitlines() if l.startswith("VIOLATION")]
             failed = [l.split()[1] for l in out.splitlines() if l.strip().startswith("FAILED")]
             kinds = sorted({("native-contract-check" if "native-contract-check" in f else re.sub(r".*/([a-z-]+)\[.*", r"\1", f)) for f in failed})
